@@ -337,6 +337,12 @@ func (p *CFListChannelMaskPayload) UnmarshalBinary(uplink bool, data []byte) err
 		return errors.New("lorawan: max 15 bytes are expected")
 	}
 
+	// the CFList holds at most 6 channel-masks, the bytes that follow are RFU
+	// and must be ignored
+	if len(data) > 12 {
+		data = data[:12]
+	}
+
 	// make data a multiple of 2
 	if remainder := len(data) % 2; remainder != 0 {
 		data = data[:len(data)-remainder]
